@@ -9,3 +9,43 @@ package keygen
 //@   requires group != nil
 //@   ensures[C20] result1 != nil ==> result0 == nil
 //@   ensures[C20] result1 == nil ==> (result0 != nil && ((old(secretShare) == nil) == (old(public) == nil)))
+
+// ---- derivation (C14): a new configuration; the parent is left untouched; share + adjust, public + adjust*G,
+// the given (or inherited) 32-byte chain key -- so that derivation can be repeated on the result.
+//@ func (*ConfigReceiver).Derive
+//@   nopanic[C05,C14]
+//@   requires c != nil && c.SecretShare != nil && c.Public != nil && adjust != nil
+//@   modifies nothing
+//@   allocates
+//@   ensures[C14] result1 != nil ==> result0 == nil
+//@   ensures[C14] result1 == nil ==> (result0 != nil && fresh(result0) && fresh(result0.SecretShare) && result0.Setup == c.Setup)
+//@   ensures[C14] result1 == nil ==> scval(result0.SecretShare) == s_add(old(scval(c.SecretShare)), old(scval(adjust)))
+//@   ensures[C14] scval(c.SecretShare) == old(scval(c.SecretShare)) && scval(adjust) == old(scval(adjust))
+//@   ensures[C14] result1 == nil ==> ptval(result0.Public) == p_add(old(ptval(c.Public)), act(old(scval(adjust)), gen()))
+//@   ensures[C14] result1 == nil ==> (len(result0.ChainKey) == 32 && result0.ChainKey == ite(len(newChainKey) <= 0, c.ChainKey, newChainKey))
+//@ func (*ConfigSender).Derive
+//@   nopanic[C05,C14]
+//@   requires c != nil && c.SecretShare != nil && c.Public != nil && adjust != nil
+//@   modifies nothing
+//@   allocates
+//@   ensures[C14] result1 != nil ==> result0 == nil
+//@   ensures[C14] result1 == nil ==> (result0 != nil && fresh(result0) && fresh(result0.SecretShare) && result0.Setup == c.Setup)
+//@   ensures[C14] result1 == nil ==> scval(result0.SecretShare) == s_add(old(scval(c.SecretShare)), old(scval(adjust)))
+//@   ensures[C14] scval(c.SecretShare) == old(scval(c.SecretShare)) && scval(adjust) == old(scval(adjust))
+//@   ensures[C14] result1 == nil ==> ptval(result0.Public) == p_add(old(ptval(c.Public)), act(old(scval(adjust)), gen()))
+//@   ensures[C14] result1 == nil ==> (len(result0.ChainKey) == 32 && result0.ChainKey == ite(len(newChainKey) <= 0, c.ChainKey, newChainKey))
+
+//@ func (*ConfigReceiver).DeriveBIP32
+//@   requires c != nil && c.SecretShare != nil && c.Public != nil
+//@   nopanic[C14,C05]
+//@   requires i < 2147483648
+//@   ensures[C14] result1 != nil ==> result0 == nil
+//@   ensures[C14] result1 == nil ==> (result0 != nil && len(result0.ChainKey) == 32)
+//@   assert_at[C14] DeriveScalar "bip32.DeriveScalar(publicKey, c.ChainKey, i)": arg1 == c.ChainKey && arg2 == i && iface(arg0) == c.Public
+//@ func (*ConfigSender).DeriveBIP32
+//@   requires c != nil && c.SecretShare != nil && c.Public != nil
+//@   nopanic[C14,C05]
+//@   requires i < 2147483648
+//@   ensures[C14] result1 != nil ==> result0 == nil
+//@   ensures[C14] result1 == nil ==> (result0 != nil && len(result0.ChainKey) == 32)
+//@   assert_at[C14] DeriveScalar "bip32.DeriveScalar(publicKey, c.ChainKey, i)": arg1 == c.ChainKey && arg2 == i && iface(arg0) == c.Public
